@@ -1519,7 +1519,14 @@ int XMLDateTime::parseInt(const XMLSize_t start, const XMLSize_t end) const
         if (fBuffer[i] < chDigit_0 || fBuffer[i] > chDigit_9)
             ThrowXMLwithMemMgr(NumberFormatException, XMLExcepts::XMLNUM_Inv_chars, fMemoryManager);
 
-        retVal = (retVal * 10) + (unsigned int) (fBuffer[i] - chDigit_0);
+        const unsigned int digit = (unsigned int) (fBuffer[i] - chDigit_0);
+
+        // the value is returned as an int: refuse what does not fit instead
+        // of wrapping around (a year of ten or more digits)
+        if (retVal > (0x7FFFFFFF - digit) / 10)
+            ThrowXMLwithMemMgr(NumberFormatException, XMLExcepts::Str_ConvertOverflow, fMemoryManager);
+
+        retVal = (retVal * 10) + digit;
     }
 
     return (int) retVal;
